@@ -185,8 +185,10 @@ example (f : Bytes) (hf : f.length ≤ 4096) : ∃ o, (step cfgE envE (run cfgE 
     (inv_run cfgE envE hist [] inv_init (by decide +kernel)) hf
 
 -- … and the replies are real ones: the last frame of the history (continuing from stored HTTP state) is
--- answered with the 401 response (54 + 363 + 31 bytes), the RPC call with its reply, the STUN request too
-example : outLen (step cfgE envE (run cfgE envE [] [fA1, fStun, fB]) fA2).out = some 448 ∧
+-- answered with the 401 response (54 bytes of headers + the response; its text is generated, Gen/Texts.lean),
+-- the RPC call with its reply, the STUN request too
+example : outLen (step cfgE envE (run cfgE envE [] [fA1, fStun, fB]) fA2).out =
+      some (54 + (httpReplyBytes envE).length) ∧
     outLen (step cfgE envE (run cfgE envE [] [fA1, fStun]) fB).out = some 86 ∧
     outLen (step cfgE envE (run cfgE envE [] [fA1]) fStun).out = some 74 := by decide +kernel
 
